@@ -117,6 +117,10 @@ class HeaderObject(BaseObject):
                 obj.parse(asf, data)
             except struct.error:
                 raise ASFHeaderError("truncated")
+            except UnicodeDecodeError:
+                raise ASFHeaderError("invalid text")
+            except KeyError:
+                raise ASFHeaderError("unknown attribute type")
             header.objects.append(obj)
 
         return header
